@@ -1496,7 +1496,11 @@ func (ex *Exec) loopInvs(st *State, ls *LoopSpec, path, phase string, assume boo
 		if assume {
 			st.assume(g)
 		} else {
+			if phase == "preserve" && ls.From != nil {
+				ex.curOnly = ls.From[label]
+			}
 			ex.oblige(st, "inv"+path+"."+phase, label, pos, g, c.Props)
+			ex.curOnly = nil
 			st.assume(g)
 		}
 	}
